@@ -54,6 +54,24 @@ CHECKS = {
              "through validate/split/join/encode/encode_many. Hostile and mutated strings are executed and judged by "
              "Trace_C10 (acceptance = recogniser, value = encoder, only ok/InvalidChordException allowed, round trip).",
         ref="4/C10"),
+    "C11": dict(
+        technique="TLA+ specification of the 12 comparison rules on encodings; TLC checks the lattice on every label pair "
+                  "and exports the values, replayed into the code",
+        text="MC_C11 enumerates every pair of a structured label family (N, X, all shorthands x basses, single degree "
+             "additions/omissions; 354 x 39 labels quick, 354 x 354 thorough) x root offsets; TLC checks on the specification "
+             "of each pair: values in {-1,0,1}, all documented implications, -1 a function of the reference alone, "
+             "self-comparison never 0; the 12 specified values per pair are compared with the 12 public functions called in "
+             "shuffled mixed batches and singly.",
+        ref="4/C11"),
+    "C09": dict(
+        technique="TLA+ transposition/respelling invariance checked by TLC on chord and key specifications and replayed; "
+                  "pitch-scaling relations on recorded outcome pairs judged by a TLA+ trace spec (Relations.tla)",
+        text="Chords: label pairs x 12 transpositions x 3 spelling policies, invariance checked by TLC on the rule "
+             "specification and replayed; chord.evaluate on transposed annotations must be bit-identical. Keys: the whole "
+             "domain (52 keys squared x 12 transpositions x all spellings) by TLC on the relationship table and replayed. "
+             "Melody/multipitch/notes: joint octave scaling (bit-identical), 2^(j/12) (1e-9), estimate-only octave (chroma), "
+             "sign flip, with non-default base_frequency/cent_tolerance; outcome pairs judged by Trace_Rel.",
+        ref="4/C09"),
 }
 
 PENDING = "check not built yet (build in progress; see DESIGN.md section 10)"
